@@ -5,6 +5,57 @@
 
 using namespace gen;
 
+// ---------------------------------------------------------------- bulk mode
+// The lines that passed the single-line oracle are also assembled in bulk - a few thousand per program - on the
+// library-managed buffer (several growths), plainly, with chunk fitting and as a counting call: every line must come out
+// with the bytes it has alone (behind NOP padding where fitting needs it).
+#include <sys/stat.h>
+struct Bulk { std::vector<std::string> texts; std::vector<std::vector<uint8_t>> bytes; };
+static std::map<int, Bulk> g_bulk; static long g_bulk_round = 0;
+static std::string bulk_dir() { const char *root = getenv("VERIF_ROOT"); std::string d = std::string(root ? root : "/verif") + "/replays"; mkdir(d.c_str(), 0755); d += "/bulk"; mkdir(d.c_str(), 0755); return d; }
+static std::string bulk_check(const std::vector<std::string> &texts, const std::vector<std::vector<uint8_t>> &bytes, int combo, int mode, size_t chunk, int ncalls) {
+  assemblyline_t a = asm_create_instance(nullptr, 0); if (!a) return "asm_create_instance(NULL, 0) failed";
+  al::apply_opts(a, combo_opts(combo), (unsigned)(texts.size() + mode)); if (mode == 1) asm_set_chunk_size(a, chunk);
+  size_t per = (texts.size() + ncalls - 1) / ncalls; int total_cnt = 0;
+  for (size_t s = 0; s < texts.size(); s += per) {
+    std::string prog; for (size_t i = s; i < std::min(texts.size(), s + per); i++) prog += texts[i] + "\n";
+    int rc, cnt = 0; if (mode == 2) { std::vector<char> w(prog.begin(), prog.end()); w.push_back(0); rc = asm_assemble_string_counting_chunks(a, w.data(), (int)chunk, &cnt); total_cnt += cnt; } else rc = asm_assemble_str(a, prog.c_str());
+    if (rc != 0) { asm_destroy_instance(a); return "call starting at line " + std::to_string(s) + " failed although every line assembles alone"; }
+  }
+  size_t off = (size_t)asm_get_offset(a); const uint8_t *p = (const uint8_t *)asm_get_code(a); size_t pos = 0; std::string why; int want_cnt = 0;
+  for (size_t i = 0; i < texts.size() && why.empty(); i++) {
+    size_t L = bytes[i].size();
+    if (mode == 1 && chunk >= 2 && L < chunk && pos / chunk != (pos + L - 1) / chunk) { size_t pad = chunk - pos % chunk; size_t q = pos; while (q < pos + pad && q < off) { x86::Insn n = x86::decode(p + q, pos + pad - q); if (!n.ok || !n.isnop) break; q += n.len; } if (q != pos + pad) { why = "line " + std::to_string(i) + " (" + texts[i] + ") at position " + std::to_string(pos) + ": padding to the chunk boundary is missing or not made of NOPs"; break; } pos += pad; }
+    if (mode == 2 && chunk >= 2 && pos / chunk != (pos + L - 1) / chunk) want_cnt++;
+    if (pos + L > off || memcmp(p + pos, bytes[i].data(), L)) why = "line " + std::to_string(i) + " (" + texts[i] + ") at position " + std::to_string(pos) + " of the library-managed buffer: got " + x86::hex(p + pos, std::min<size_t>(L, pos < off ? off - pos : 0)) + " ; alone it assembles to " + x86::hex(bytes[i].data(), L);
+    pos += L;
+  }
+  if (why.empty() && pos != off) why = "final offset " + std::to_string(off) + " ; the lines add up to " + std::to_string(pos);
+  if (why.empty() && mode == 2 && total_cnt != want_cnt) why = "counting call(s) reported " + std::to_string(total_cnt) + " ; " + std::to_string(want_cnt) + " instructions cross a chunk boundary";
+  asm_destroy_instance(a); return why;
+}
+static void bulk_flush(hz::Ctx &ctx, int combo) {
+  Bulk &b = g_bulk[combo]; if (b.texts.empty()) return;
+  static const size_t CH[] = {17, 9, 7, 23, 13, 38, 4096, 11}; long rd = g_bulk_round++;
+  int mode = (int)(rd % 3); size_t chunk = mode == 1 ? CH[(rd / 3) % 8] : 16; int ncalls = 1 + (int)((rd / 2) % 3);
+  std::string path = bulk_dir() + "/" + ctx.prop + "-w" + std::to_string(ctx.shard) + "-" + std::to_string(rd) + ".asm";
+  { FILE *f = fopen(path.c_str(), "wb"); if (f) { for (auto &t : b.texts) { fputs(t.c_str(), f); fputc('\n', f); } fclose(f); } }
+  std::string id = "BF|" + std::to_string(mode) + "|" + std::to_string(chunk) + "|" + std::to_string(combo) + "|" + std::to_string(ncalls) + "|" + path;
+  if (ctx.begin(id, "bulk program of " + std::to_string(b.texts.size()) + " lines")) {
+    ctx.cls("part:bulk-on-library-managed-buffer"); ctx.cls(mode == 0 ? "bulk:plain" : mode == 1 ? "bulk:fitting" : "bulk:counting"); ctx.nontrivial(id);
+    std::string why = bulk_check(b.texts, b.bytes, combo, mode, chunk, ncalls);
+    if (ctx.want_sample()) ctx.put_sample(std::to_string(b.texts.size()) + " verified lines in " + std::to_string(ncalls) + " call(s) on the library-managed buffer, " + (mode == 0 ? "plain" : mode == 1 ? "chunk fitting " + std::to_string(chunk) : "counting") + " -> " + (why.empty() ? "every line keeps its bytes" : why));
+    if (!why.empty()) { hz::Failure f; f.caseid = id; f.text = "bulk program (" + path + ")"; f.symptom = "bulk"; f.detail = why; f.tags = {"mn:bulk", "form:mode" + std::to_string(mode), "sym:bulk", "group:bulk"}; ctx.fail(f); }
+    else unlink(path.c_str());
+  }
+  b.texts.clear(); b.bytes.clear();
+}
+static void bulk_add(hz::Ctx &ctx, const LineCase &c, const std::vector<uint8_t> &bytes) {
+  Bulk &b = g_bulk[c.combo]; b.texts.push_back(text(c.it)); b.bytes.push_back(bytes);
+  if (b.texts.size() >= 2500) bulk_flush(ctx, c.combo);
+}
+static void bulk_finish(hz::Ctx &ctx) { for (int c = 0; c < 12; c++) bulk_flush(ctx, c); }
+
 // a line that chunk fitting has to pad is encoded twice by the library (once at the unpadded position, once behind
 // the padding): the instruction behind the NOPs must still be the one written
 static void run_fitted(hz::Ctx &ctx, const LineCase &c, bool nested = false) {
@@ -53,6 +104,7 @@ static void run_case(hz::Ctx &ctx, const LineCase &c, const std::function<bool(c
   if (ctx.want_sample()) ctx.put_sample(text(c.it) + "  [" + combo_name(c.combo) + "] -> " + (v.res.rc == 0 ? x86::hex(v.res.bytes.data(), v.res.bytes.size()) : std::string("EXIT_FAILURE")));
   if (!v.ok) { ctx.fail(make_failure(c, v.symptom, v.detail)); return; }
   if (extra) extra(c, v, ctx);
+  if (c.it.cls != "branch" && c.it.cls != "branchind" && c.it.cls != "branchfar") bulk_add(ctx, c, v.res.bytes);
   // a sample of every corpus is also assembled behind a context line and where chunk fitting has to re-encode it
   uint64_t hsel = hz::fnv(id) >> 9;
   if (hsel % 29 == 0) run_context(ctx, c, true);
@@ -86,6 +138,7 @@ void prop_c01(hz::Ctx &ctx) {
       }); }
     });
   }
+  bulk_finish(ctx);
 }
 
 // ---------------------------------------------------------------- C02
@@ -120,6 +173,7 @@ void prop_c02(hz::Ctx &ctx) {
       }
     }
   }
+  bulk_finish(ctx);
 }
 
 // ---------------------------------------------------------------- C03
@@ -203,7 +257,7 @@ static void prop_c03_exec(hz::Ctx &ctx) {
     if (!e.ok) { hz::Failure f; f.caseid = idb; f.text = txt; f.symptom = "exec-value"; f.detail = e.detail; f.tags = {"group:exec", "mn:mov", "form:exec", "sym:exec-value"}; ctx.fail(f); }
   }
 }
-void prop_c03(hz::Ctx &ctx) { prop_c03_encoding(ctx); prop_c03_exec(ctx); }
+void prop_c03(hz::Ctx &ctx) { prop_c03_encoding(ctx); bulk_finish(ctx); prop_c03_exec(ctx); }
 
 // ---------------------------------------------------------------- C04
 void prop_c04(hz::Ctx &ctx) {
@@ -237,6 +291,7 @@ void prop_c04(hz::Ctx &ctx) {
       product(r, cands, [&](Intent &it) { for (int c : combos_for(ctx, si, true, false)) { LineCase lc{it, c}; run_case(ctx, lc, nontriv); if ((si + c) % 5 == 0) run_fitted(ctx, lc); } });
     }
   }
+  bulk_finish(ctx);
 }
 
 // ---------------------------------------------------------------- C05
@@ -310,10 +365,17 @@ void prop_c05(hz::Ctx &ctx) {
       for (int c : combos_for(ctx, si, true, false)) { LineCase lc{it, c}; run_case(ctx, lc, nontriv); }
     }
   }
+  bulk_finish(ctx);
 }
 
 // replay of one serialized line case under the generic oracle (C01-C04 and the indirect part of C05)
 int replay_line(const std::string &prop, const std::string &caseid) {
+  if (caseid.compare(0, 3, "BF|") == 0) {
+    auto f = split(caseid, '|'); if (f.size() != 6) return 2; int mode = atoi(f[1].c_str()); size_t chunk = strtoull(f[2].c_str(), nullptr, 10); int combo = atoi(f[3].c_str()), ncalls = atoi(f[4].c_str());
+    std::string all; if (!hz::read_file(f[5], all)) { printf("cannot read %s\n", f[5].c_str()); return 2; }
+    std::vector<std::string> texts; std::vector<std::vector<uint8_t>> bytes; size_t p0 = 0; while (p0 < all.size()) { size_t e = all.find('\n', p0); if (e == std::string::npos) e = all.size(); std::string l = all.substr(p0, e - p0); p0 = e + 1; if (l.empty()) continue; auto r = al::assemble(l, combo); if (r.rc != 0) { printf("line does not assemble alone: %s\n", l.c_str()); return 1; } texts.push_back(l); bytes.push_back(r.bytes); }
+    std::string why = bulk_check(texts, bytes, combo, mode, chunk, ncalls); printf("%zu lines, mode %d chunk %zu: %s\n", texts.size(), mode, chunk, why.empty() ? "OK" : why.c_str()); return why.empty() ? 0 : 1;
+  }
   if (caseid.compare(0, 2, "K|") == 0) {
     LineCase c; if (!parse_case(caseid.substr(2), c)) return 2; hz::Ctx ctx; ctx.out = fopen("/dev/null", "w"); ctx.hashfile.clear(); run_context(ctx, c, true);
     bool bad = ctx.classes.count("violations") && ctx.classes["violations"] > 0; printf("%s behind a context line: %s\n", text(c.it).c_str(), bad ? "FAIL" : "OK"); return bad ? 1 : 0;
